@@ -998,6 +998,10 @@ class CxxEvaluator(Evaluator):
         return r & ((1 << bits) - 1)
 
     def call(self, func, this, args):
+        if this is None and getattr(self, "null_is_null", False) and func.get("cls") and not func.get("static") \
+           and func.get("n") != str(func.get("cls")).split("::")[-1].split("<")[0]:
+            # (opt-in: evaluators whose every object is modelled) a non-static member function entered with a null `this`
+            raise OutOfBounds("%s is called through a null pointer" % func.get("q"))
         args = [conv(a, p.get("t")) for p, a in zip(func["params"], args)] + list(args[len(func["params"]):])
         return conv(Evaluator.call(self, func, this, args), func.get("ret"))
 
@@ -1528,6 +1532,10 @@ class CxxEvaluator(Evaluator):
                 return b[e["n"]]
             if hasattr(b, e["n"]):
                 return getattr(b, e["n"])
+            if b is None and e.get("arrow"):
+                bt = str((unwrap(e["b"]) or {}).get("t", "")) if isinstance(e.get("b"), dict) else ""
+                if bt.rstrip().endswith("*") or bt.startswith(("std::unique_ptr<", "std::shared_ptr<", "const std::unique_ptr<", "const std::shared_ptr<")) or getattr(self, "null_is_null", False):
+                    raise OutOfBounds("the field %s is read through a null pointer at %s" % (e["n"], e.get("l")))
             raise Broken("read of the field %s of an object the domain does not model (%s)" % (e["n"], type(b).__name__))
         if k == "call" and e.get("f", "").startswith(("std::make_unique<", "std::make_shared<")) and self.hook_for(e["f"]) is None and self.prog is not None and e.get("targs"):
             T = e["targs"][0]
